@@ -2829,6 +2829,24 @@ hnd_get_wellknown_lkd(coap_resource_t *resource,
   coap_print_status_t result = 0;
   size_t wkc_len = 0;
   uint8_t buf[4];
+  const coap_string_t *cache_query = query;
+  coap_string_t filter;
+  coap_opt_iterator_t opt_iter;
+  coap_opt_t *q_opt;
+
+  /*
+   * The filter is matched against the registered paths and attribute values
+   * as they are: take it from the Uri-Query option itself, not from the
+   * percent-encoded query string.
+   */
+  q_opt = coap_check_option(request, COAP_OPTION_URI_QUERY, &opt_iter);
+  if (q_opt) {
+    const uint8_t *value = coap_opt_value(q_opt);
+
+    memcpy(&filter.s, &value, sizeof(filter.s)); /* read-only use */
+    filter.length = coap_opt_length(q_opt);
+    query = &filter;
+  }
 
   /*
    * Quick hack to determine the size of the resource descriptions for
@@ -2874,7 +2892,7 @@ hnd_get_wellknown_lkd(coap_resource_t *resource,
       }
       free_wellknown_response(session, data_string);
     } else if (!coap_add_data_large_response_lkd(resource, session, request,
-                                                 response, query,
+                                                 response, cache_query,
                                                  COAP_MEDIATYPE_APPLICATION_LINK_FORMAT,
                                                  -1, 0, data_string->length,
                                                  data_string->s,
